@@ -188,6 +188,7 @@ def run_check(pid: str, tier: str, base_seed: int, runs: int | None, workers: in
     nruns = runs or (mod.QUICK_RUNS if tier == "quick" else mod.THOROUGH_RUNS)
     wall_cap = max_wall or (getattr(mod, "QUICK_WALL", 75.0) if tier == "quick"
                             else getattr(mod, "THOROUGH_WALL", 900.0))
+    os.environ["VERIF_TIER_ACTIVE"] = tier
     known = load_known()
     chunk = max(1, min(getattr(mod, "CHUNK", 50), nruns // (workers * 4) or 1))
     seeds = [derive_seed(base_seed, pid, i) for i in range(nruns)]
@@ -250,7 +251,7 @@ def run_check(pid: str, tier: str, base_seed: int, runs: int | None, workers: in
             vals, final, used = minimise(pool, info["tape"], key, budget=250 if nclass < 6 else 1)
             rep = {
                 "property": pid, "clause": v["clause"], "signature": v["signature"], "detail": v["detail"],
-                "seed": info["seed"], "base_seed": base_seed, "class": key, "runs_hit": info["hits"],
+                "seed": info["seed"], "base_seed": base_seed, "tier": tier, "class": key, "runs_hit": info["hits"],
                 "tape": final.get("tape", info["tape"]) if final else info["tape"],
                 "tape_values": vals, "minimise_reruns": used,
                 "config": (final or {}).get("config", info.get("config", {})),
@@ -402,6 +403,7 @@ def run_replay(pid: str, path: str, mutant: str | None = None) -> int:
         mod.MUTANTS[mutant]()
     with open(path, encoding="utf-8") as f:
         rep = json.load(f)
+    os.environ["VERIF_TIER_ACTIVE"] = rep.get("tier", "quick")
     r = env.run_tape(mod.scenario, [int(v) for v in rep["tape_values"]])
     target = rep["class"]
     hit = [v for v in r.get("violations", []) if class_key(v) == target]
